@@ -31,8 +31,9 @@ def string_matches(f):
     """list of (literal, eq_bb, true_target, false_target) for `<str as PartialEq>::eq(x, const LIT)` followed by a switch"""
     out = []
     for bb, t, ck, fr in f.calls():
-        if not ck or not ck.endswith("PartialEq::eq") or len(t["args"]) != 2:
+        if not ck or not ck.endswith(("PartialEq::eq", "PartialEq::ne")) or len(t["args"]) != 2:
             continue
+        is_ne = ck.endswith("PartialEq::ne")
         lit = None
         for a in t["args"]:
             c = op_const(a)
@@ -65,7 +66,8 @@ def string_matches(f):
         if tt["k"] != "switch" or is_local(tt["discr"]) != t["dest"]["l"]:
             continue
         m, other = cfg.switch_edge_blocks(f, nb)
-        out.append((lit, bb, other, m.get(0)))
+        # (literal, block, target when equal, target when different): `x != LIT` swaps the two edges
+        out.append((lit, bb, m.get(0), other) if is_ne else (lit, bb, other, m.get(0)))
     return out
 
 
